@@ -137,6 +137,11 @@ def c07_positions():
         body = [I("LOAD_CONST", Constant(v), line_number=1), I("RETURN_VALUE", line_number=1)]
         out.append(("operand:%d:%r" % (i, v), mk([body]), ["constant-operand"]))
         out.append(("additional:%d:%r" % (i, v), mk([[I("LOAD_CONST", Constant(None), line_number=1), I("RETURN_VALUE", line_number=1)]], _additional_args=(Constant(v, 1),)), ["constant-additional"]))
+    huge = int("f" * 5000, 16)
+    for lab, v in (("huge", huge), ("-huge", -huge), ("(huge,)", (huge, 1)), ("frozenset(huge)", frozenset([huge, -huge])), ("nested", ((huge,), "a"))):
+        body = [I("LOAD_CONST", Constant(v), line_number=1), I("RETURN_VALUE", line_number=1)]
+        out.append(("operand:int beyond the decimal conversion limit:%s" % lab, mk([body]), ["constant-operand"]))
+        out.append(("additional:int beyond the decimal conversion limit:%s" % lab, mk([[I("LOAD_CONST", Constant(None), line_number=1), I("RETURN_VALUE", line_number=1)]], _additional_args=(Constant(v, 1),)), ["constant-additional"]))
     for s in ["", "plain", "caf\u00e9 \U0001F600", "\ud800", "a\udfffb", "quote\"back\\slash\nnewline", "\x00\x7f"]:
         sur = ["lone-surrogate-string-outside-constants"] if _has_surrogate(s) else []
         body = [I("LOAD_CONST", Constant(None), line_number=1), I("RETURN_VALUE", line_number=1)]
